@@ -90,6 +90,34 @@ def parse_kani(out):
     return res
 
 
+def playback(d, h, timeout=600):
+    """Kani's counterexample for harness h, replayed natively on the code in d: the concrete input vectors Kani prints
+    and the outcome of running the harness on them as an ordinary test (cargo kani playback)."""
+    cmd = ['cargo', 'kani', '--output-format=terse', '-Z', 'concrete-playback', '--concrete-playback=inplace', '--harness', h]
+    rc, out, dt = sh(cmd, d, timeout)
+    m = re.search(r'kani_concrete_playback_%s_\d+' % re.escape(h), out)
+    if not m:
+        return None
+    test = m.group(0)
+    vals = None
+    for root, _, files in os.walk(os.path.join(d, 'src')):
+        for f in files:
+            if f.endswith('.rs'):
+                txt = open(os.path.join(root, f)).read()
+                k = txt.find('fn %s()' % test)
+                if k >= 0:
+                    e = txt.find('kani::concrete_playback_run', k)
+                    body = txt[k:e]
+                    vals = [(c.strip(), [int(x) for x in v.split(',') if x.strip()]) for c, v in re.findall(r'//([^\n]*)\n\s*vec!\[([^\]]*)\]', body)]
+    rc2, out2, dt2 = sh(['cargo', 'kani', 'playback', '-Z', 'concrete-playback', '--', test], d, timeout)
+    pm = re.search(r"panicked at ([^\n]*)\n([^\n]*)", out2)
+    failed = bool(re.search(r'test result: FAILED', out2)) or rc2 == 101
+    return {'harness': h, 'playback_test': test, 'inputs': vals,
+            'native_replay': 'failed' if failed else 'passed',
+            'native_panic': (pm.group(1) + ' :: ' + pm.group(2).strip()) if pm else None,
+            'cmds': [' '.join(cmd), 'cargo kani playback -Z concrete-playback -- ' + test]}
+
+
 def hoist_texts(repo, work, needed):
     out = {}
     for helper in needed:
@@ -185,7 +213,17 @@ def run_groups(harnesses, tier, repo, work):
             if any('unwinding assertion' in f for f in x['failed']):
                 r['undecided'].append('kani harness %s: unwinding assertion failed (bound too small)' % h)
             else:
-                r['violations'].append((h, 'kani', ['kani harness %s (%s): %s' % (h, H[h][3], '; '.join(x['failed']) or 'FAILED')],
-                                        ['kani/%s' % H[h][0]], {'cex': None}))
+                cex = None
+                try:
+                    cex = playback(os.path.join(work, 'kani-crate' if H[h][1] == 'crate' else 'kani-scan'), h)
+                except Exception as e:  # pragma: no cover
+                    cex = None
+                if cex is not None and cex.get('native_replay') != 'failed':
+                    cex['note'] = 'the counterexample did not fail when replayed natively; the failed obligation stands'
+                texts = ['kani harness %s (%s): %s' % (h, H[h][3], '; '.join(x['failed']) or 'FAILED')]
+                if cex and cex.get('native_replay') == 'failed':
+                    texts.append('counterexample replayed natively on the real code: %s; inputs %r' % (cex.get('native_panic'), cex.get('inputs')))
+                r['violations'].append((h, 'kani', texts, ['kani/%s' % H[h][0]],
+                                        {'cex': cex if (cex and cex.get('native_replay') == 'failed') else None, 'playback': cex}))
     r['info']['harnesses'] = {h: results.get(h) for h in sel}
     return r
